@@ -1178,3 +1178,27 @@ package mqtt
 //@ ensures[C14] err != nil ==> !denied(err)
 //@ ensures[C14,id=documented_classes] err != nil ==> !hastype(err, SubscribeError) && reqclass(err)
 //@ ensures[C14,id=not_submitted_nothing_written] err != nil && notsent(err) ==> forall(k, wire_len(k) == old(wire_len(k)))
+
+// Offline: the twin of Online.
+//@ func mqtt.(*Client).Offline -> ch
+//@ modifies chanstate(c.offlineSig)
+//@ requires c.offlineSig != nil && !closed(c.offlineSig) && cap(c.offlineSig) == 1
+//@ ensures !closed(c.offlineSig) && cap(c.offlineSig) == 1
+//@ ensures old(len(c.offlineSig)) == 1 ==> len(c.offlineSig) == 1 && qat(c.offlineSig, 0) == old(qat(c.offlineSig, 0))
+//@ ensures[C10,C12] ch != nil && len(c.offlineSig) == 1 && qat(c.offlineSig, 0) == ch
+
+// The in-memory store, against its own map (the Persistence interface contract speaks of an abstract
+// store; here the map is the store: has/at).
+//@ func mqtt.(*volatile).Load -> r, err
+//@ modifies nothing
+//@ ensures[C15,C02] err == nil && same(r, at(m.perKey, key))
+//@ ensures[C15,C02] !has(m.perKey, key) ==> r == nil
+
+//@ func mqtt.(*volatile).Delete -> err
+//@ modifies region("map.map[uint][]byte"), region("map.len")
+//@ requires m.perKey != nil
+//@ ensures[C15,C02] err == nil && !has(m.perKey, key)
+//@ ensures[C15,C02] forall(k, k != key ==> has(m.perKey, k) == old(has(m.perKey, k)) && same(at(m.perKey, k), old(at(m.perKey, k))))
+
+// (volatile.Save is not under contract: its two range loops need the prefix sums of the buffer lengths to be
+// monotone, a lemma by induction the engine does not have; the Persistence interface contract stands for it.)
